@@ -16,6 +16,8 @@ UserClasses == {
   Cls("Exception", BE, TRUE, FALSE, "same", "ok", "builtin"),                        \* Exception('x')
   Cls("ValueError", EX, TRUE, FALSE, "same", "ok", "builtin"),    \* ValueError()
   Cls("KeyError", <<"LookupError">> \o EX, TRUE, FALSE, "same", "ok", "builtin"),
+  Cls("IndexError", <<"LookupError">> \o EX, TRUE, FALSE, "same", "ok", "builtin"),  \* IndexError('i')
+  TypeErrorCls,                                                                     \* TypeError('t')
   Cls("Os2",    <<"OSError">> \o EX, TRUE, FALSE, "same", "ok", "builtin"),       \* OSError(2,'nf') -> FileNotFoundError
   Cls("Os3",    <<"OSError">> \o EX, TRUE, FALSE, "same", "ok", "builtin"),       \* OSError(2,'nf','fn'): args lose the filename
   Cls("Uni5",   <<"ValueError">> \o EX, TRUE, FALSE, "same", "ok", "builtin"),    \* UnicodeDecodeError, 5 args
@@ -59,7 +61,10 @@ CorePool ==
 \* constructs whose user code *is* the fault leaf (innermost position, user exceptions only)
 \* geniter: the target is a generator raising at its 1st / 2nd next() under a [subspec] spec
 LeafPool == {Ctx("checkval", "-", "-", "-", "-"), Ctx("pathget", "-", "-", "-", "-"),
-             Ctx("geniter", "k1", "-", "-", "-"), Ctx("geniter", "k2", "-", "-", "-")}
+             Ctx("geniter", "k1", "-", "-", "-"), Ctx("geniter", "k2", "-", "-", "-"),
+             \* targ: the fault is inside the index / argument spec of a T operation
+             Ctx("targ", "idx_spec", "-", "-", "-"), Ctx("targ", "idx_invoke", "-", "-", "-"),
+             Ctx("targ", "call_spec", "-", "-", "-")}
 
 Pool(n) == IF Rich \/ n <= 1 THEN RichPool ELSE CorePool
 
